@@ -5,6 +5,7 @@
    writer half of C01). *)
 open Common
 open Mtbl_model
+type string = Stdlib.String.t
 open Gen
 
 external c_compress : int -> bool -> int -> string -> string option = "vp_compress"
